@@ -455,6 +455,24 @@ func runC10(c *Ctx, r *Report, tier string) {
 							if src == "" {
 								src = c.term(st.Val)
 							}
+							if strings.HasPrefix(src, "cell:multiTag") {
+								// the constructor written out: multiTag{value: string(field.Tag)}
+								if u, ok := st.Val.(*ssa.UnOp); ok {
+									if root, ok := c.cellRoot(u.X); ok {
+										if al2, ok := root.(*ssa.Alloc); ok && al2.Referrers() != nil {
+											for _, r3 := range *al2.Referrers() {
+												if fa2, ok := r3.(*ssa.FieldAddr); ok && fieldVarName(fieldObj(fa2.X.Type(), fa2.Field)) == "value" && fa2.Referrers() != nil {
+													for _, r4 := range *fa2.Referrers() {
+														if s4, ok := r4.(*ssa.Store); ok && (c.term(s4.Val) == "conv[string](StructField.Tag(new:reflect.StructField))" || c.term(s4.Val) == "StructField.Tag(new:reflect.StructField)") {
+															src = "call:newMultiTag(StructField.Tag(new:reflect.StructField))"
+														}
+													}
+												}
+											}
+										}
+									}
+								}
+							}
 							r.Check(src == "call:newMultiTag(StructField.Tag(new:reflect.StructField))", "ORDER", hn, "a positional carries the tag of its own field", c.ipos(st), "Arg.tag = newMultiTag(field.Tag) of the field just scanned", "Arg.tag is "+trunc(src, 100)+": the field's own base/description tags are ignored when the positional is converted")
 						}
 					}
